@@ -791,6 +791,24 @@ def explore(ctx):
                         'predicate': 'slice rule with the package\'s occupation functions; documented fill formulas (float64, <= 4 ulp)'})
     counterexamples.sort(key=lambda v: v['size'])
     counterexamples = counterexamples[:3]
+    # ---- the public entry point on files: AbacusHOD staging (every staged column is the file's value for that halo id) and
+    #      run_hod == gen_gal_cat on the staged tables (harness/hod_wrapper.py)
+    from . import hod_wrapper
+    import os
+    hcases = hod_wrapper.cases(ctx)
+    try:
+        hw = ctx.run_impl('harness.hod_wrapper', 'impl_run_hod', {'cases': hcases, 'root': os.path.join(ctx.scratch, 'c09_run_hod')})
+    except Exception as e:  # noqa: BLE001
+        hw = []
+        ctx.notes.append('run_hod stage did not complete: ' + str(e)[:200])
+    dist['run_hod_sessions'] = len(hw)
+    for c, g in zip(hcases, hw):
+        if g['problems'] and not any(v['key'].startswith('run_hod') for v in counterexamples):
+            counterexamples.append({
+                'key': 'run_hod:' + g['problems'][0].split(':')[0][:40].replace(' ', '_'), 'what': 'AbacusHOD on subsample files: ' + g['problems'][0],
+                'size': c['H'] + c['P'], 'input': {'run_hod': c}, 'impl_result': g,
+                'expected': 'staged halo columns aligned with the files by halo id; run_hod = gen_gal_cat on the staged tables',
+                'predicate': 'the decision rule is evaluated at the mass and secondary ranks of the halo whose random number is compared'})
 
     mismatches, validated = [], 0
     comp = modes.get('compiled')
@@ -817,10 +835,12 @@ def explore(ctx):
         ctx.notes.append('model not available (translator or proofs broken): correspondence vs model skipped')
     nmodes = sum(1 for v in modes.values() if v is not None)
     return {
-        'evaluations': len(specs) * nmodes, 'distinct_nontrivial': len(nontrivial),
+        'evaluations': len(specs) * nmodes + sum(len(c['threads']) for c in hcases[:len(hw)]), 'distinct_nontrivial': len(nontrivial),
         'rule': 'synthetic halo/particle tables (dicts as AbacusHOD.staging returns them; 0..200 halos, 0..400 particles), all 7 '
                 'tracer subsets x {no RSD, box RSD, light-cone RSD} with assembly-bias / shear / conformity / rank / velocity-bias '
                 'blocks on and off, exact tie cases, thread counts 1..16; each case run compiled and compiled+NUMBA_BOUNDSCHECK=1; '
+                'plus AbacusHOD sessions on synthetic subsample files (ids increasing / decreasing / interleaved across files; staged columns '
+                'against the files by halo id, run_hod against gen_gal_cat on the staged tables); '
                 'non-trivial = at least two galaxies produced, distinct by (sizes, subset, option flags, Nthread)',
         'samples': [{'spec': specs[i], 'sizes': (comp[i].get('sizes') if comp else None)} for i in (0, len(specs) // 2, len(specs) - 1)],
         'traces_validated_against_impl': validated, 'exhaustive': False, 'input_distribution': dist,
@@ -856,6 +876,10 @@ def search(ctx, broken):
 
 def replay(ctx, rec):
     inp = rec['input']
+    if 'run_hod' in inp:
+        import os
+        g = ctx.run_impl('harness.hod_wrapper', 'impl_run_hod', {'cases': [inp['run_hod']], 'root': os.path.join(ctx.scratch, 'c09_run_hod_replay')})[0]
+        return bool(g['problems']), {'case': inp['run_hod'], 'impl_result': g}
     spec = dict(inp['spec'])
     if 'halo' in inp:
         spec = dict(spec, explicit=inp)
